@@ -94,6 +94,16 @@ def cases(tier, seed):
         flavor = rng.choice(["tt", "cff", "cff2", "tt", "cff", "cff2", "vf-tt", "vf-cff2"])
         out.append({"cid": f"c11-{seed}-{k}", "lib": rng.choice(["ufoLib2", "defcon"]), "ufo": ufo, "flavor": flavor,
                     "kwargs_on": kwargs_on, "mode": mode})
+    # the keepGlyphNames lib key only speaks when the argument is silent: the same sources as the "arg" cases with
+    # keepGlyphNames = False in the lib and the explicit argument (True for the renamed font, False for the reference)
+    import copy
+
+    for c in [c for c in out if c["mode"] == "arg"][: (12 if tier == "quick" else 150)]:
+        d = copy.deepcopy(c)
+        d["cid"] = c["cid"] + "-kn"
+        d["mode"] = "arg+keepnames-false"
+        d["ufo"]["lib"]["com.github.googlei18n.ufo2ft.keepGlyphNames"] = False
+        out.append(d)
     return out
 
 
